@@ -97,6 +97,11 @@ def hasExplicitFrom (attrs : List FromAttr) : Bool :=
   attrs.any fun a => match a with
     | .empty => true | .types _ => true | .forward => true | _ => false
 
+/-- `expand` of from.rs for an enum: the attributes of **all** variants are read first, then every
+variant is expanded knowing whether *any* of them — declared before or after it — is explicit. -/
+def fromEnum (vs : List (FromAttr × List Field)) : R (List (List FromImpl)) :=
+  vs.mapM fun v => fromExpand v.1 true (hasExplicitFrom (vs.map (·.1))) v.2
+
 /-! ### Into -/
 
 structure Convs where
